@@ -24,11 +24,12 @@
 (* (a send at a leaving yield is documented to walk the children AGAIN, the   *)
 (* consumer here only sends at entering yields), MutateThenSend (within one   *)
 (* park mutations precede sends: they touch disjoint variables and commute).  *)
-EXTENDS WalkLaws, TLC
+EXTENDS WalkLaws, TLC, Json
 
 CONSTANTS N,          \* initial trees have 1..N nodes
           MaxMut,     \* mutations per walk
           MaxPark,    \* mutations per park
+          MaxSend,    \* send() calls per walk (at most 2 per park: "last value sent takes effect")
           Ons, Backs, Recs, Selfs,
           Shapes,     \* replacement shapes: 1 leaf, 2 node+child, 3 node+2 children, 4 chain of 3
           WRemovable, \* may the consumer remove / slice-replace the walked node itself (W is not the tree root)
@@ -40,11 +41,11 @@ ShapeSize(sh) == IF sh = 4 THEN 3 ELSE sh
 
 VARIABLES kids, fOf, aOf, parA, nA, nF,           \* the tree and its FST objects
           cfg, frames, pc, cur, lv, rec, isSelf,   \* the generator
-          muts, parkMuts, sends, lastSend, replacedCur, \* the consumer
+          muts, parkMuts, sends, nsend, lastSend, replacedCur, \* the consumer
           entered, stale, closed, opened, T0, exp, dbl, nyield, nins, log   \* history (property side)
 tree == <<kids, fOf, aOf, parA, nA, nF>>
 gen  == <<cfg, frames, pc, cur, lv, rec, isSelf>>
-cons == <<muts, parkMuts, sends, lastSend, replacedCur>>
+cons == <<muts, parkMuts, sends, nsend, lastSend, replacedCur>>
 hist == <<entered, stale, closed, opened, T0, exp, dbl, nyield, nins, log>>
 vars == <<tree, gen, cons, hist>>
 
@@ -83,10 +84,10 @@ Init ==
     /\ aOf = [f \in Ids |-> IF f <= n THEN f ELSE 0]
     /\ nA = n /\ nF = n
     /\ \E o \in Ons, b \in Backs, r \in Recs, s \in Selfs :
-         cfg = [on |-> o, back |-> b, recurse |-> r, self |-> s, scope |-> FALSE]
+         cfg = [on |-> o, back |-> b, recurse |-> r, self |-> s, scope |-> FALSE, rootleave |-> TRUE]
     /\ frames = <<[stk |-> <<>>, rec |-> cfg.recurse]>>
     /\ pc = "start" /\ cur = 0 /\ lv = FALSE /\ rec = "F" /\ isSelf = FALSE
-    /\ muts = 0 /\ parkMuts = 0 /\ sends = 0 /\ lastSend = "none" /\ replacedCur = FALSE
+    /\ muts = 0 /\ parkMuts = 0 /\ sends = 0 /\ nsend = 0 /\ lastSend = "none" /\ replacedCur = FALSE
     /\ entered = {} /\ stale = {} /\ closed = {} /\ opened = {} /\ T0 = <<>> /\ exp = NoExp /\ dbl = {}
     /\ nyield = 0 /\ nins = 0
     /\ log = IF Logging THEN <<[k |-> "I", n |-> n, p |-> p]>> ELSE <<>>
@@ -103,7 +104,7 @@ Yield(f, leaving, pcNew, r, selfY) ==
   /\ T0' = Snap
   /\ parkMuts' = 0 /\ sends' = 0 /\ lastSend' = "none" /\ replacedCur' = FALSE
   /\ log' = Log([k |-> "Y", f |-> f, lv |-> leaving])
-  /\ UNCHANGED <<tree, cfg, muts, stale, closed, opened, exp, nins>>
+  /\ UNCHANGED <<tree, cfg, muts, nsend, stale, closed, opened, exp, nins>>
 
 Silent(pcNew) == /\ pc' = pcNew /\ UNCHANGED <<tree, cfg, cur, lv, rec, isSelf, cons, hist>>
 
@@ -180,9 +181,9 @@ Walker == Start \/ AfterSelf \/ Setup \/ Pop \/ AfterEnter \/ AfterLeave \/ Tail
 Parked == pc \in {"yS", "yE", "yL", "yT"}
 CurIdx0 == IdxOf(T0, cur)
 
-MarkStale(f, keep) ==
-  IF keep /\ CurIdx0 # 0 /\ IdxOf(T0, f) # 0 /\ IdxOf(T0, f) \in Frontier(T0, CurIdx0, cfg.back)
-  THEN stale \cup {f} ELSE stale
+MarkStale(f, fnew) ==    \* f = FST of the replaced node, fnew = FST of its replacement (the same object if kept)
+  IF CurIdx0 # 0 /\ IdxOf(T0, f) # 0 /\ IdxOf(T0, f) \in Frontier(T0, CurIdx0, cfg.back)
+  THEN stale \cup {fnew} ELSE stale
 
 Remove(a) ==
   /\ Parked /\ muts < MaxMut /\ parkMuts < MaxPark
@@ -195,7 +196,7 @@ Remove(a) ==
        /\ parA' = [parA EXCEPT ![a] = 0]
   /\ muts' = muts + 1 /\ parkMuts' = parkMuts + 1
   /\ log' = Log([k |-> "M", op |-> "remove", f |-> fOf[a], sh |-> 0, keep |-> FALSE])
-  /\ UNCHANGED <<nA, nF, gen, sends, lastSend, replacedCur, entered, stale, closed, opened, T0, exp, dbl, nyield, nins>>
+  /\ UNCHANGED <<nA, nF, gen, sends, nsend, lastSend, replacedCur, entered, stale, closed, opened, T0, exp, dbl, nyield, nins>>
 
 Replace(a, sh, keep) ==
   /\ Parked /\ muts < MaxMut /\ parkMuts < MaxPark
@@ -222,17 +223,17 @@ Replace(a, sh, keep) ==
                                 ELSE IF aOf[g] \in S THEN 0 ELSE aOf[g]]
        /\ nA' = nA + nk
        /\ nF' = nF + nk - (IF keep THEN 1 ELSE 0)
-       /\ stale' = MarkStale(f, keep)
+       /\ stale' = MarkStale(f, fr)
        /\ replacedCur' = IF f = cur THEN keep ELSE IF cur \in {fOf[x] : x \in S} THEN FALSE ELSE replacedCur
        /\ nins' = nins + nk
        /\ log' = Log([k |-> "M", op |-> "replace", f |-> f, sh |-> sh, keep |-> keep])
   /\ muts' = muts + 1 /\ parkMuts' = parkMuts + 1
-  /\ UNCHANGED <<gen, sends, lastSend, entered, closed, opened, T0, exp, dbl, nyield>>
+  /\ UNCHANGED <<gen, sends, nsend, lastSend, entered, closed, opened, T0, exp, dbl, nyield>>
 
 Send(v) ==
-  /\ pc \in {"yS", "yE"} /\ sends < 2                   \* NoLeaveSend; "last value sent takes effect"
+  /\ pc \in {"yS", "yE"} /\ sends < 2 /\ nsend < MaxSend                  \* NoLeaveSend; "last value sent takes effect"
   /\ rec' = IF pc = "yS" THEN (IF v THEN "T" ELSE "F") ELSE (IF v THEN "one" ELSE "F")
-  /\ sends' = sends + 1 /\ lastSend' = IF v THEN "T" ELSE "F"
+  /\ sends' = sends + 1 /\ nsend' = nsend + 1 /\ lastSend' = IF v THEN "T" ELSE "F"
   /\ log' = Log([k |-> "S", v |-> v])
   /\ UNCHANGED <<tree, cfg, frames, pc, cur, lv, isSelf, muts, parkMuts, replacedCur,
                  entered, stale, closed, opened, T0, exp, dbl, nyield, nins>>
@@ -253,18 +254,19 @@ Resume ==
                   THEN [on |-> TRUE, clause |-> IF replacedCur THEN "ReplacedChildrenNext" ELSE "SendHonoured",
                         allowed |-> below, mayStop |-> FALSE]
                   ELSE NoExp
-  /\ log' = Log([k |-> "R"])
+  /\ log' = Log([k |-> "R", c |-> exp'.clause])
   /\ UNCHANGED <<tree, cfg, frames, cur, lv, rec, isSelf, cons, entered, stale, T0, dbl, nyield, nins>>
 
-Consumer == \/ Resume
-            \/ (sends = 0 /\ \E a \in Ids : Remove(a))                     \* MutateThenSend
-            \/ (sends = 0 /\ \E a \in Ids, sh \in Shapes, keep \in BOOLEAN : Replace(a, sh, keep))
-            \/ \E v \in BOOLEAN : Send(v)
+DoRemove  == sends = 0 /\ \E a \in Ids : Remove(a)                                  \* MutateThenSend
+DoReplace == sends = 0 /\ \E a \in Ids, sh \in Shapes, keep \in BOOLEAN : Replace(a, sh, keep)
+DoSend    == \E v \in BOOLEAN : Send(v)
+Consumer  == Resume \/ DoRemove \/ DoReplace \/ DoSend
 
 Finished == pc = "done" /\ UNCHANGED vars
 
 Next == Walker \/ Consumer \/ Finished
 Spec == Init /\ [][Next]_vars /\ WF_vars(Walker \/ Resume)
+SpecG == Init /\ [][Walker \/ Consumer]_vars       \* generation runs: behaviours end at done (no stuttering step)
 
 \* ---------------------------------------------------------------------------------------------- properties
 YieldedAlive  == "YieldedAlive" \notin dbl       \* judged when the yield happens (Yield)
@@ -281,5 +283,5 @@ SendFalseHonoured    == Parked => ~UnderClosed(T0, cur, closed)
 Bounded == nyield <= YieldBound(N, nins)
 Terminates == <>(pc = "done")
 
-EmitLog == (Logging /\ pc = "done") => PrintT(<<"BEHAVIOUR", cfg, log>>)
+EmitLog == (Logging /\ pc = "done") => PrintT("BEHAVIOUR " \o ToJson([cfg |-> cfg, log |-> log]))
 =============================================================================
